@@ -75,7 +75,8 @@ def limits_for(t):
 def cases(tier, seed):
     out = []
     for t in TYPES:
-        out.append({"part": "vars", "type": t, "seed": seed})
+        for rot in range(1 if tier == "quick" else 12):
+            out.append({"part": "vars", "type": t, "seed": seed + rot * 5})
     out.append({"part": "kinds"})
     out.append({"part": "destinations"})
     out.append({"part": "history"})
